@@ -120,6 +120,7 @@ pub open spec fn zeros(n: int) -> Seq<u8> { Seq::new(n as nat, |i: int| 0u8) }
 //@include inc/attrs_types.rs
 //@include inc/attrs_gen.rs
 //@include inc/attrs_turn.rs
+//@include inc/attrs_stun.rs
 
 
 // ---------------------------------------------------------------- FINGERPRINT (RFC 8489 14.7)
